@@ -52,6 +52,10 @@ def main():
         from . import relational
 
         relational.main_c06()
+    elif pid == "C16":
+        from . import interactive
+
+        interactive.main()
     else:
         print("no check registered for %s" % pid)
         sys.exit(3)
